@@ -629,6 +629,8 @@ func (e *exec) prepFst(op, key string) (func(), finishFn) {
 			return "rej tooshort"
 		case strings.Contains(err.Error(), "key integrity check failed"):
 			return "rej integrity"
+		case strings.Contains(err.Error(), "key is not a clean path"):
+			return "rej unclean" // (repo commit 6c2daee of branch verif-db2, if integrated)
 		}
 		return "acc oserr"
 	}
